@@ -613,3 +613,50 @@ func names(r Raw, sep, attrName string, report func(kind, scope, name string)) {
 		}
 	}
 }
+
+// WriteJSON is the harness's own JSON TTLV writer (numeric enumerations and masks).
+func WriteJSON(n wire.Node) []byte {
+	load()
+	b, _ := json.Marshal(jsonNode(n))
+	return b
+}
+
+func jsonNode(n wire.Node) map[string]any {
+	name := tagName(n.Tag)
+	if name == "" {
+		name = fmt.Sprintf("0x%06X", n.Tag)
+	}
+	m := map[string]any{"tag": name}
+	if n.Type == wire.Structure {
+		ch := make([]any, 0, len(n.Children))
+		for _, c := range n.Children {
+			ch = append(ch, jsonNode(c))
+		}
+		m["value"] = ch
+		return m
+	}
+	m["type"] = n.Type.String()
+	switch n.Type {
+	case wire.Integer, wire.Interval:
+		m["value"] = n.Int
+	case wire.LongInteger:
+		if n.Int >= 1<<52 || n.Int <= -(1<<52) {
+			m["value"] = fmt.Sprintf("0x%016x", uint64(n.Int))
+		} else {
+			m["value"] = n.Int
+		}
+	case wire.BigInteger:
+		m["value"] = "0x" + hex.EncodeToString(wire.ToTwos(n.Big, 0))
+	case wire.Enumeration:
+		m["value"] = fmt.Sprintf("0x%08X", uint32(n.Int))
+	case wire.Boolean:
+		m["value"] = n.Int != 0
+	case wire.TextString:
+		m["value"] = string(n.Bytes)
+	case wire.ByteString:
+		m["value"] = strings.ToUpper(hex.EncodeToString(n.Bytes))
+	case wire.DateTime:
+		m["value"] = time.Unix(n.Int, 0).UTC().Format(time.RFC3339)
+	}
+	return m
+}
